@@ -249,7 +249,7 @@ def _parse_tlc(r):
         r.violated = mv.group(1)
     elif "Error: Deadlock reached" in out:
         r.violated = "deadlock"
-    elif "Temporal properties were violated" in out:
+    elif "Temporal properties were violated" in out or re.search(r"Error: Temporal property \S+ was violated", out):
         r.violated = "temporal"
     elif re.search(r"Error: Action property (\S+) is violated", out):
         r.violated = re.search(r"Error: Action property (\S+) is violated", out).group(1)
